@@ -53,7 +53,13 @@ pub struct Rng(pub u64);
 
 impl Rng {
     pub fn new(seed: u64) -> Self {
-        Rng(seed.wrapping_mul(0x9E3779B97F4A7C15).wrapping_add(0x1234_5678_9abc_def1))
+        // the state is the seed pushed through the output mixer twice, so that the streams of nearby
+        // seeds are unrelated (state = seed * gamma would make them shifted copies of one another)
+        let mut r = Rng(seed ^ 0x1234_5678_9abc_def1);
+        let a = r.next();
+        let mut r2 = Rng(a ^ seed.rotate_left(32));
+        let b = r2.next();
+        Rng(a ^ b.rotate_left(17))
     }
     pub fn next(&mut self) -> u64 {
         self.0 = self.0.wrapping_add(0x9E3779B97F4A7C15);
@@ -92,6 +98,8 @@ pub fn ymd(y: i32, m: u32, d: u32) -> NaiveDate {
 /// A site on the integer grid: lat/lon in 1e-4 degree, elevation in metres, gmt in seconds.
 #[derive(Clone, Copy, Debug, PartialEq)]
 pub struct Site {
+    /// extra latitude precision in 1e-9 degree (boundary probes); the spec sees `lat` only
+    pub dlat: i64,
     pub lat: i64,
     pub lon: i64,
     pub el: i64,
@@ -102,7 +110,7 @@ impl Site {
     pub fn location(&self) -> Location {
         Location {
             coords: Coordinates::new(
-                Latitude::try_from(self.lat as f64 / 1e4).unwrap(),
+                Latitude::try_from((self.lat as f64 / 1e4 + self.dlat as f64 / 1e9).clamp(-90., 90.)).unwrap(),
                 Longitude::try_from(self.lon as f64 / 1e4).unwrap(),
                 Elevation::try_from(self.el as f64).unwrap(),
             ),
@@ -333,8 +341,156 @@ pub fn project(m: &BTreeMap<Prayer, Result<PrayerTime, ()>>) -> Out {
     }
 }
 
-/// One guarded call of `prayer_times_dt`. A panic is data.
+// ------------------------------------------------------------------------------------------
+// Session effects: results must be a function of the arguments alone. Every generator goes
+// through `call`, which (seeded, with small probabilities) first makes a call with a NEIGHBOUR of
+// the input (same date in another zone, a site in the same one-degree cell, other weather / school /
+// angles, the adjacent date, the same latitude elsewhere ...), then the call itself, then repeats the
+// call on a fresh thread (empty thread-local state) and through the range APIs. A difference is
+// recorded and emitted as an `impure` event, which no action of any trace specification accepts.
+
+pub struct Session {
+    rng: Rng,
+    pub impure: Vec<Value>,
+    pub enabled: bool,
+    pub neighbours: u64,
+    pub fresh_checks: u64,
+    pub api_checks: u64,
+}
+
+pub static SESSION: std::sync::Mutex<Option<Session>> = std::sync::Mutex::new(None);
+
+pub fn session_start(seed: u64) {
+    *SESSION.lock().unwrap() = Some(Session { rng: Rng::new(seed ^ 0x5E55), impure: Vec::new(), enabled: true,
+        neighbours: 0, fresh_checks: 0, api_checks: 0 });
+}
+
+/// Emit the recorded impurities into the trace (call once, before `finish`).
+pub fn session_flush(w: &mut TraceWriter) -> Value {
+    let mut g = SESSION.lock().unwrap();
+    if let Some(s) = g.as_mut() {
+        for v in s.impure.drain(..) {
+            w.emit(v);
+        }
+        json!({"neighbour_calls": s.neighbours, "fresh_thread_checks": s.fresh_checks, "range_api_checks": s.api_checks})
+    } else {
+        json!({})
+    }
+}
+
+fn neighbour(r: &mut Rng, site: &Site, date: NaiveDate, p: &P) -> (Site, NaiveDate, P) {
+    let (s, d, q) = neighbour1(r, site, date, p);
+    if r.chance(1, 3) {
+        neighbour1(r, &s, d, &q)
+    } else {
+        (s, d, q)
+    }
+}
+
+fn neighbour1(r: &mut Rng, site: &Site, date: NaiveDate, p: &P) -> (Site, NaiveDate, P) {
+    let mut s = *site;
+    let mut d = date;
+    let mut q = p.clone();
+    match r.range(0, 11) {
+        0 => s.gmt = (s.gmt + *[900i64, -900, 1800, -1800, 3600, -3600, 565, -11][..].get((r.next() % 8) as usize).unwrap()).clamp(-43200, 43200),
+        1 => s.lon = (s.lon + r.range(-3000, 3000)).clamp(-1_800_000, 1_800_000),
+        2 => s.lat = (s.lat + r.range(-3000, 3000)).clamp(-900_000, 900_000),
+        3 => s.lat = (s.lat + r.range(-60, 60)).clamp(-900_000, 900_000),
+        4 => s.el = (s.el + r.range(-200, 200)).clamp(-420, 8848),
+        5 => q.w = if q.w.is_some() { None } else { Some((r.range(1000, 10500), r.range(-900, 570))) },
+        6 => q.sch = 3 - q.sch,
+        7 => {
+            q.fa = (q.fa + r.range(-2, 2) * 10000).max(0);
+            q.ia = (q.ia + r.range(-2, 2) * 10000).max(0);
+        }
+        8 => d = if r.chance(1, 2) { date.succ_opt().unwrap_or(date) } else { date.pred_opt().unwrap_or(date) },
+        9 => {
+            // the same latitude elsewhere on the globe, in its own zone
+            s.lon = r.range(-1_800_000, 1_800_000);
+            s.gmt = natural_gmt(s.lon);
+        }
+        10 => q.pol = r.range(0, 14) as usize,
+        _ => {}
+    }
+    (s, d, q)
+}
+
+fn same(a: &Out, b: &Out) -> bool {
+    a.out == b.out && a.t == b.t && a.x == b.x
+}
+
+/// One guarded call of `prayer_times_dt`, with the session effects described above.
 pub fn call(site: &Site, date: NaiveDate, p: &P) -> Out {
+    let plan = {
+        let mut g = SESSION.lock().unwrap();
+        match g.as_mut() {
+            Some(s) if s.enabled => {
+                let nb = if s.rng.chance(1, 3) { Some(neighbour(&mut s.rng, site, date, p)) } else { None };
+                let fresh = s.rng.chance(1, 4);
+                let api = p.w.is_none() && s.rng.chance(1, 24);
+                let before = s.rng.range(0, 3);
+                let after = s.rng.range(0, 12);
+                Some((nb, fresh, api, before, after))
+            }
+            _ => None,
+        }
+    };
+    let Some((nb, fresh, api, before, after)) = plan else { return raw_call(site, date, p) };
+    if let Some((s2, d2, p2)) = &nb {
+        let _ = raw_call(s2, *d2, p2);
+    }
+    let mut out = raw_call(site, date, p);
+    let mut notes: Vec<Value> = Vec::new();
+    if fresh {
+        let (s2, p2) = (*site, p.clone());
+        let f = std::thread::spawn(move || raw_call(&s2, date, &p2)).join().unwrap_or_else(|_| Out { out: "panic", t: [-1; 7], x: [0; 7], msg: "thread".into() });
+        if !same(&f, &out) {
+            notes.push(json!({"ev": "impure", "kind": "history", "site": site_json(site), "date": date_json(date), "p": p.json(),
+                "in_sequence": {"out": out.out, "t": out.t, "x": out.x}, "fresh_thread": {"out": f.out, "t": f.t, "x": f.x},
+                "previous_call": nb.as_ref().map(|(s2, d2, p2)| json!({"site": site_json(s2), "date": date_json(*d2), "p": p2.json()})).unwrap_or(json!("none"))}));
+        }
+    }
+    if api && out.ok() {
+        // the same date through the range APIs (sequential, and parallel with 3 workers)
+        let params = p.params();
+        let loc = site.location();
+        let start = date - chrono::Duration::days(before);
+        let end = date + chrono::Duration::days(after);
+        let dr = DateRange::from(start..=end);
+        let r1 = catch_unwind(AssertUnwindSafe(|| prayer_times_dt_rng(&params, loc, &dr)));
+        islamic_prayer_times::verif_hooks::set_parallelism(3);
+        let r2 = catch_unwind(AssertUnwindSafe(|| prayer_times_dt_rng_block(&params, loc, &dr, 0)));
+        islamic_prayer_times::verif_hooks::set_parallelism(0);
+        for (name, r) in [("range_api", r1), ("block_api", r2)] {
+            let got = match r {
+                Ok(m) => m.get(&date).map(project),
+                Err(_) => Some(Out { out: "panic", t: [-1; 7], x: [0; 7], msg: String::new() }),
+            };
+            let ok = got.as_ref().map_or(false, |g| same(g, &out));
+            if !ok {
+                notes.push(json!({"ev": "impure", "kind": name, "site": site_json(site), "date": date_json(date), "p": p.json(),
+                    "range": [dn_of(start), dn_of(end)], "single_date_api": {"out": out.out, "t": out.t, "x": out.x},
+                    "range_entry": got.map(|g| json!({"out": g.out, "t": g.t, "x": g.x})).unwrap_or(json!("missing"))}));
+            }
+        }
+    }
+    let mut g = SESSION.lock().unwrap();
+    if let Some(s) = g.as_mut() {
+        if nb.is_some() { s.neighbours += 1; }
+        if fresh { s.fresh_checks += 1; }
+        if api { s.api_checks += 1; }
+        if !notes.is_empty() {
+            if s.impure.len() < 50 {
+                s.impure.extend(notes);
+            }
+            out.out = "impure";
+        }
+    }
+    out
+}
+
+/// One guarded call of `prayer_times_dt`. A panic is data.
+pub fn raw_call(site: &Site, date: NaiveDate, p: &P) -> Out {
     let params = p.params();
     let loc = site.location();
     let w = p.weather();
@@ -359,7 +515,7 @@ pub fn call(site: &Site, date: NaiveDate, p: &P) -> Out {
 }
 
 pub fn site_json(s: &Site) -> Value {
-    json!({"lat": s.lat, "lon": s.lon, "el": s.el, "gmt": s.gmt})
+    json!({"lat": s.lat, "lon": s.lon, "el": s.el, "gmt": s.gmt, "dlat": s.dlat})
 }
 
 pub fn date_json(d: NaiveDate) -> Value {
